@@ -6,12 +6,19 @@
 export GOFLAGS=-mod=mod GOPROXY=off GOSUMDB=off GOTOOLCHAIN=local
 mode=$1; N=${2:-6}
 ids=$(python3 -c "import json; print(' '.join(c['property_id'] for c in json.load(open('/verif/MANIFEST.json'))['checks']))")
+[ -n "$CHECKS" ] && ids="$CHECKS"   # CHECKS="C08 C12": run only these checks (refactors / cross modes)
 # mode "cross": every check on every seeded change (which other properties' checks fire, and why)
 if [ "$mode" = refactors ]; then list=$(ls -d ${REFDIR:-/verif/refactors}/${ONLY:-}*/); else list=$(ls -d ${SEEDDIR:-/verif/seeded}/${ONLY:-}*/); fi
 out=/tmp/par_corpus_$mode; rm -rf $out; mkdir -p $out
 worker() {
   i=$1; wt=/tmp/wt/par$i; sc=/tmp/verif_scratch_par$i; mkdir -p $sc; cp /verif/known_findings.json $sc/
-  (cd /repo && git worktree remove --force $wt >/dev/null 2>&1; git worktree add -q --detach $wt HEAD) || return
+  # several workers start at once and git serialises worktree creation with a lock file: retry
+  okwt=""
+  for try in 1 2 3 4 5 6; do
+    if (cd /repo && git worktree remove --force $wt >/dev/null 2>&1; rm -rf $wt; git worktree prune; git worktree add -q --detach $wt HEAD) 2>/dev/null; then okwt=1; break; fi
+    sleep $((try + i % 3))
+  done
+  [ -n "$okwt" ] || { echo "WORKER $i: no worktree" > $out/_worker_$i.txt; return; }
   # baseline violations per property (normally none)
   n=0
   for d in $list; do
